@@ -107,6 +107,19 @@ def run(chk):
     all_fail += f
     hist = P.histogram(gens, gos)
 
+    # 2b. aliasing-focused sub-stream: few distinct values, almost everything through reused variables
+    # (one variable read at several places and in several statements; payments split in steps)
+    alias_profile = {"mon_var": 0.85, "var_reuse": 0.9, "acct_var": 0.6, "num_var": 0.5, "send": 0.8, "sendall": 0.1,
+                     "save": 0.05, "depth": 2, "ddepth": 1, "stmts_max": 4, "small_values": True, "exact_balance": 0.5,
+                     "infix": 0.03, "big": 0.0}
+    cases_a, gens_a = P.make_cases(pid, seed + 104729, max(300, n // 2), start=5_000_000, profile_override=alias_profile)
+    gos_a = runner.run_go(cases_a)
+    models_a = P.run_model(cases_a, gos_a)
+    d, f = evaluate(chk, pid, cases_a, gens_a, gos_a, models_a, stats, samples)
+    all_dis += d
+    all_fail += f
+    stats["alias_stream_cases"] = len(cases_a)
+
     # 3. property-specific sub-checks on the real code
     extra = EXTRAS.get(pid)
     if extra:
@@ -375,6 +388,9 @@ def extra_C12(chk, cases, gens, gos, stats):
     outs = runner.run_go([P_strip(c) for c in sub]) if sub else []
     mods = P.run_model(sub, outs) if sub else []
     stats["fault_injections"] = len(sub)
+    f0, d0 = rawvars_C12(chk, cases, gens, gos, stats)
+    fails += f0
+    dis += d0
     for c, o, m in zip(sub, outs, mods):
         if "go" not in o:
             continue
@@ -386,6 +402,54 @@ def extra_C12(chk, cases, gens, gos, stats):
             d = runner.diff_exec(o["go"], m, P.KEYS["C12"])
             if d:
                 dis.append((c, o["go"], m, d))
+    return fails, dis
+
+
+JUNK = ["", " ", "0", "-0", "+5", "007", "1e3", "0x10", "1_000", "١٢", "12 ", " 12", "1/0", "0/0", "00/0", "0 / 000", "1/2", "3/2", "50%", "150%",
+        "50 %", ".5%", "5.%", "USD", "USD 1", "USD  1", "USD 1 2", " 1", "USD -1", "USD 1.5", "USD 99999999999999999999999999", "usd 1",
+        "world", "a:b", "a::b", ":a", "a:", "a b", "é", "<kept>", "@a", "-", "--1", "1-", "9" * 80, "1/" + "9" * 50, "0." + "0" * 40 + "1%", "\x00", "\n"]
+
+
+def rawvars_C12(chk, cases, gens, gos, stats):
+    """arbitrary text in plain variables: never a panic, never result+error; the model agrees on kind and payload"""
+    import random
+    rng = random.Random("C12raw-%d" % chk.seed)
+    sub = []
+    for c, g, o in zip(cases, gens, gos):
+        if not c.get("vars"):
+            continue
+        for _ in range(2):
+            v = dict(c["vars"])
+            k = rng.choice(sorted(v))
+            v[k] = rng.choice(JUNK)
+            if rng.random() < 0.15:
+                del v[rng.choice(sorted(v))]
+            sub.append(dict(c, id=len(sub), vars=v, perStmt=False))
+    outs = runner.run_go([P_strip(c) for c in sub]) if sub else []
+    mods = P.run_model(sub, outs) if sub else []
+    fails, dis = [], []
+    stats["rawvar_runs"] = len(sub)
+    kinds = {}
+    for c, o, m in zip(sub, outs, mods):
+        go = o.get("go")
+        if go is None:
+            fails.append((c, o, m, ["harness crashed: %s" % str(o)[:200]]))
+            continue
+        if go["outcome"] == "err":
+            kinds[go["errKind"]] = kinds.get(go["errKind"], 0) + 1
+        why = []
+        if go["outcome"] == "panic":
+            why.append("panic on variable text: %s" % go.get("panic"))
+        if go.get("bothResultAndError"):
+            why.append("result returned together with an error")
+        if why:
+            fails.append((c, go, m, why))
+        if m is not None and m.get("outcome") not in ("drivererror", "drivercrash"):
+            stats["model_comparisons"] += 1
+            d = runner.diff_exec(go, m, P.KEYS["C12"])
+            if d:
+                dis.append((c, go, m, d))
+    stats["rawvar_error_kinds"] = kinds
     return fails, dis
 
 
